@@ -28,6 +28,13 @@ class OrientedLine:
       new_instance = object.__new__(cls)
       return new_instance
 
+  def __copy__(self):
+    return OrientedLine(self.line, self.orient)
+
+  def __deepcopy__(self, memo):
+    # a new oriented line on the same line (or line name)
+    return OrientedLine(self.line, self.orient)
+
   def __init__(self, *args):
     if len(args) == 1:
       if isinstance(args[0], OrientedLine):
